@@ -164,7 +164,9 @@ Holds(p, h) ==
                           \* C01 at request level: every reported run is what its own wire run yields under the matcher of its variant
                           [] p = "C01" -> (IF h.par.via = "http" THEN C01_http(h) ELSE C11_run(h))
                           \* the answer of the server is ONE JSON document with the published fields (the harness decodes it; ok is false otherwise)
-                          [] p = "C16" -> h.out.status = 200 /\ h.out.ok /\ h.out.ctype = "application/json" [] p = "C19" -> C19_run(h) [] p = "C20" -> C20_run(h) [] p = "C17" -> C17_run(h) [] OTHER -> TRUE)
+                          [] p = "C16" -> /\ h.out.status = 200 /\ h.out.ok /\ h.out.ctype = "application/json"
+                                          \* identifiers of this answer and of the answers to the requests served at the same time: pairwise distinct
+                                          /\ Cardinality({h.out.all_ids[i] : i \in DOMAIN h.out.all_ids}) = Len(h.out.all_ids) [] p = "C19" -> C19_run(h) [] p = "C20" -> C20_run(h) [] p = "C17" -> C17_run(h) [] OTHER -> TRUE)
       [] p = "C01" -> C01_run(h, s, d, hp)
       \* completeness is owed to what ARRIVED at the host: a packet the installed capture filter rejected counts as arrived
       \* ... and so does a packet that arrived inside the window after a parallel run had already stopped listening
